@@ -276,6 +276,7 @@ class Env:
         self.adv_loss_args = None
         self.pred_loss_args = None
         self.step_grads = {}
+        self.inplace_zero = False
         # pre-state (torch): the .grad buffers of user-supplied modules may hold ANYTHING when a step starts (a backward pass outside fairlearn,
         # pre-training that ended with step() and no zero_grad): arbitrary symbolic buffers
         self.stale = [T(self._arr(f"st{i}", s, mk)) for i, s in enumerate(shapes)]
@@ -294,8 +295,11 @@ class Env:
                     pairs = list(zip(env.pparams, env.gLP))
                 else:
                     pairs = list(zip(env.pparams, env.gLA)) + list(zip(env.aparams, env.gU))
-                for p, g in pairs:  # torch semantics: gradients accumulate into .grad
-                    p.grad = T(g.a.copy()) if p.grad is None else T(p.grad.a + g.a)
+                for p, g in pairs:  # torch semantics: gradients accumulate IN PLACE into an existing .grad buffer (aliases see it)
+                    if p.grad is None:
+                        p.grad = T(g.a.copy())
+                    else:
+                        p.grad.a[...] = p.grad.a + g.a
 
             def grads_for(s, variables):  # tensorflow tape
                 env.events.append(f"tape_gradient_{s.kind}_{'pred' if variables is env.pparams else 'adv'}")
@@ -336,7 +340,10 @@ class Env:
             def zero_grad(s):
                 env.events.append(f"zero_grad_{s.kind}")
                 for p in (env.pparams if s.kind == "pred" else env.aparams):
-                    p.grad = None
+                    if env.inplace_zero and p.grad is not None:
+                        p.grad.a[...] = 0  # a user optimiser with zero_grad(set_to_none=False): the buffer is kept and zeroed in place
+                    else:
+                        p.grad = None
 
             def step(s):
                 env.events.append(f"step_{s.kind}")
@@ -465,7 +472,9 @@ def jobs(tier, seed):
         for ci, combo in enumerate(combos):
             for pass_y in (False, True):
                 js.append({"id": f"{eng}-{'x'.join('_'.join(map(str, s)) for s in combo)}-{'eo' if pass_y else 'dp'}-{ci}",
-                           "engine": eng, "shapes": [list(s) for s in combo], "pass_y": pass_y})
+                           "engine": eng, "shapes": [list(s) for s in combo], "pass_y": pass_y,
+                           # every other torch job: the (user-supplied) optimisers clear gradients in place, torch's zero_grad(set_to_none=False)
+                           "inplace_zero": eng == "torch" and ci % 2 == 1})
     return js
 
 
@@ -498,6 +507,7 @@ def run_job(job, deadline):
             return real(prefix + "_" + "_".join(map(str, idx)))
 
         env = Env(shapes, job["pass_y"], mk)
+        env.inplace_zero = bool(job.get("inplace_zero"))
         try:
             env.build_engine(job["engine"], real("alpha0", 0), real("alpha", 0))
             _call_step(job["engine"], env)
@@ -642,6 +652,12 @@ def replay(cex):
                 return next(losses)
 
             def get_optimizer(self, optim_param, model):
+                if job.get("inplace_zero"):
+                    class SGDKeep(torch.optim.SGD):
+                        def zero_grad(self, set_to_none=True):
+                            super().zero_grad(set_to_none=False)
+
+                    return SGDKeep(model.parameters(), lr=1.0)
                 return torch.optim.SGD(model.parameters(), lr=1.0)
 
         alpha0 = float(F(mdl.get("alpha0", "0")))
@@ -684,7 +700,7 @@ def replay(cex):
         shp = shapes[wi]
         kind = "vector" if (len(shp) == 1 or shp[0] == 1) else "matrix_rows>=2"
         return {"reproduced": bool(worst > 1e-9 * scale), "signature": f"torch:update:{kind}",
-                "detail": f"real torch autograd+SGD: parameter tensor {wi} shape {shp} moved by a gradient that differs from dLP-<u,dLP>_F u-alpha*dLA by {worst:.6g}; dLP={GP[wi].tolist()} dLA={GA[wi].tolist()} alpha={alpha} .grad before the step={stale[wi].tolist()}"}
+                "detail": f"real torch autograd+SGD: parameter tensor {wi} shape {shp} moved by a gradient that differs from dLP-<u,dLP>_F u-alpha*dLA by {worst:.6g}; dLP={GP[wi].tolist()} dLA={GA[wi].tolist()} alpha={alpha} .grad before the step={stale[wi].tolist()} optimiser zero_grad in place={bool(job.get('inplace_zero'))}"}
 
     # tensorflow engine: tensorflow is not installed -> replay on the float version of the stub (stated weakness)
     import fairlearn.adversarial._tensorflow_engine as te
